@@ -102,6 +102,11 @@ class WireChopManager(WireManagerBase):
     def grade(self) -> None:
         self.update()
 
+        # start afresh: grade() can be called repeatedly (mesh written twice)
+        self.grading.specification = []
+        for wire in self.wires:
+            wire.grading.specification = []
+
         # Create a proper Grading from chops
         for chop in self.chops:
             self.grading.add_chop(chop)
